@@ -1,8 +1,10 @@
 #!/usr/bin/env python3
-"""patch2mutant.py <patch.diff> <name> <expect> [prop-json]  -- turn a fix patch into the mutant that reverts it.
+"""patch2mutant.py [--forward] <patch.diff> <name> <expect> [prop-json]  -- turn a fix patch into the mutant that reverts it (--forward: a seeded patch into the mutant that applies it).
 Each hunk becomes one replacement (old = the lines the fix left, new = the lines it found); prints the spec as JSON, or
 appends it to /verif/mutants/<prop-json> when given. The `old` text of every hunk must occur exactly once in /repo's file."""
 import sys, json, re
+FORWARD = '--forward' in sys.argv
+if FORWARD: sys.argv.remove('--forward')
 patch, name, expect = sys.argv[1], sys.argv[2], sys.argv[3]
 hunks = []
 cur_file = None
@@ -27,6 +29,7 @@ specs = []
 for h in hunks:
     if h['file'].endswith('_test.go'): continue
     old, new = '\n'.join(h['post']), '\n'.join(h['pre'])
+    if FORWARD: old, new = new, old
     src = open('/repo/' + h['file']).read()
     # trim common context until unique is not needed; just verify
     if src.count(old) != 1:
